@@ -172,7 +172,7 @@ def _run_case(case, st):
 
 
 def run_case(case, st):
-    return LongLived.both(_run_case, case, st)
+    return LongLived.both(_run_case, case, st, repoint=case[0] not in ("percent", "percent-seq"))      # (memory_percent divides by a system-wide figure)
 
 
 def worker(chunk):
